@@ -10,7 +10,9 @@ RULE = (
     "documents from the legal-text grammar (hostile fragments + character mutations, nominative reporter names as "
     "parties, section signs, id/supra beside stop words) x {reference, Aho-Corasick, Hyperscan}; a case is "
     "non-trivial when the reference tokenizer's raw candidate set contains an overlapping pair of tokens (so a "
-    "token had to be dropped, merged or popped); distinct = distinct (text, tokenizer)"
+    "token had to be dropped, merged or popped); plus an enumerated family of long documents (4K ... 70K characters, "
+    "thorough 300K: four line shapes x fifteen separators incl. every kind of line break x {ac, hs, ref up to 10K}), "
+    "non-trivial when they contain a special token; distinct = distinct (text, tokenizer)"
 )
 ASSUMPTIONS = [
     "lone surrogates are outside the domain (cannot be UTF-8 encoded for Hyperscan)",
@@ -36,9 +38,17 @@ def _overlapping_candidates(text):
 
 
 def evaluate(case):
-    text = case["text"]
     which = case.get("tokenizer", "ac")
     res = Res()
+    if case.get("kind") == "long":
+        # long documents described compactly: `line` + `sep`, repeated
+        if not (isinstance(case.get("reps"), int) and 0 < case["reps"] <= 50000):
+            res.label("out-of-domain")
+            return res
+        text = (case["line"] + case["sep"]) * case["reps"]
+        res.label("long-document")
+    else:
+        text = case["text"]
     res.label("tokenizer:" + which)
     out = call(TOK[which].tokenize, text)
     if isinstance(out, Raised):
@@ -46,7 +56,9 @@ def evaluate(case):
         return res
     all_tokens, cit = out
     if "".join(str(t) for t in all_tokens) != text:
-        res.v("concat:" + which, f"tokens concatenate to {''.join(str(t) for t in all_tokens)!r}")
+        joined = "".join(str(t) for t in all_tokens)
+        k = next((i for i, (x, y) in enumerate(zip(joined, text)) if x != y), min(len(joined), len(text)))
+        res.v("concat:" + which, f"tokens concatenate to {joined!r}" if len(text) < 400 else f"first difference at offset {k}: tokens {joined[max(0, k - 10):k + 20]!r} text {text[max(0, k - 10):k + 20]!r} (length {len(text)})")
     last_end = 0
     last_idx = -1
     for idx, tok in cit:
@@ -66,10 +78,31 @@ def evaluate(case):
         res.v("index-set:" + which, f"special at {special[:20]} listed {[i for i, _ in cit][:20]}")
     if cit:
         res.label("has-special")
+    if case.get("kind") == "long":
+        res.nontrivial = bool(cit)
+        return res
     if _overlapping_candidates(text):
         res.nontrivial = True
         res.label("overlapping-candidates")
     return res
+
+
+LONG_LINES = ["See Foo v. Bar, 1 U.S. 1, 5 (1999). Id. at 6.", "Smith, supra, at 7; 2 F.2d at 9 \u00a7 5", "Compare Thompson v. Holmes, 3 Cranch 12 (1805) \u2014 caf\u00e9", "x"]
+LONG_SEPS = ["\r\n", "\n", "\r", "\x0b", "\x0c", "\x1c", "\x85", "\u2028", "\u2029", " \r\n ", "\n\n", " ", "\t", "\u00a0", ""]
+
+
+def _long_items(tier):
+    """Documents beyond any plausible internal length threshold (4K ... 70K characters; thorough 300K), with every kind
+    of line break."""
+    sizes = [4100, 10100, 33000, 70000] if tier == "quick" else [4100, 10100, 33000, 70000, 140000, 300000]
+    out = []
+    for line in LONG_LINES:
+        for sep in LONG_SEPS:
+            for size in sizes:
+                reps = max(1, size // (len(line) + len(sep) or 1))
+                for which in ("ac", "hs") + (("ref",) if size <= 10100 else ()):
+                    out.append({"kind": "long", "line": line, "sep": sep, "reps": reps, "tokenizer": which})
+    return out
 
 
 def _cases(which, hostile=True):
@@ -79,6 +112,7 @@ def _cases(which, hostile=True):
 def phases(tier):
     n_ac, n_other = (6000, 2000) if tier == "quick" else (500000, 100000)
     return [
+        Phase("long-documents", "enum", items=lambda: _long_items(tier), exhaustive=True, distinct=True, chunk=4),
         Phase("docs-ac", "gen", strategy=lambda: _cases("ac"), n=n_ac),
         Phase("docs-hs", "gen", strategy=lambda: _cases("hs"), n=n_other),
         Phase("docs-ref", "gen", strategy=lambda: _cases("ref"), n=n_other),
